@@ -7,6 +7,7 @@ package gldap
 // expose the harness primitives.
 
 import (
+	"crypto/x509"
 	"context"
 	"crypto/tls"
 
@@ -25,6 +26,8 @@ func VReg(name string, f func())             { vReg(name, f) }
 func VReplayMain() error                     { return vReplayMain() }
 func VEvent(kind string, args ...interface{}) { vEvent(kind, args...) }
 func VTrack(p interface{}, name string)      { vTrack(p, name) }
+func VTrackElems(s interface{}, name string) { vTrackElems(s, name) }
+func VCertPoolSize(p *x509.CertPool) int      { return vCertPoolSize(p) }
 func VSchedFork(level int)                   { vSchedFork(level) }
 func VQuiesce()                              { vQuiesce() }
 func VSummarise(name string)                 { vSummarise(name) }
@@ -50,7 +53,7 @@ func vExchangeN(name string, env *ber.Packet, debug bool) *VExchange {
 	vAssume(err == nil)
 	r, err := c.readRequest(1)
 	vAssume(err == nil && r != nil)
-	w, err := newResponseWriter(c.writer, &c.writerMu, c.logger, c.connID, 1)
+	w, err := newResponseWriter(c.writer, &c.writerMu, c.logger, int(c.connID), 1)
 	vAssume(err == nil)
 	return &VExchange{Req: r, W: w, nc: nc, c: c}
 }
